@@ -296,6 +296,8 @@ def c16_e(ctx: Ctx):
         out.append(ctx.ok(R, g, mt[0], "the regex is applied with re.match (start-anchored)"))
     else:
         out.append(ctx.viol(R, g, (bad or [g.node])[0], "the schema regex is applied with re.search: any path that contains the pattern somewhere is parsed as a job"))
+    from .lints import nested_builder
+    out += nested_builder(ctx, R)
     for tname, pat in sorted(types.items()):
         try:
             import re
